@@ -90,7 +90,8 @@ type TxSpec struct {
 	// stated: the operation counts only if it was actually issued, and if it was, a rejection fails the commit
 	PreCommitNested bool `json:"preCommitNested,omitempty"`
 	// ViaMigration: the transaction is a migration step run by MigrationManager.Migrate with the step's (ordinary)
-	// context; a failure is reported with step.SetError while the step still returns the version it was heading for
+	// context; a failure is reported with step.SetError while the step returns the version it was heading for (even
+	// number of operations) or the version it started from (odd number)
 	ViaMigration bool `json:"viaMigration,omitempty"`
 	// FreshInstance (RunHistory only): before this transaction the data moves, through a snapshot restore, into a
 	// newly started instance whose stores were initialised on an empty database
@@ -502,6 +503,10 @@ func RunTxHooks(w *World, m *Model, tx TxSpec, beforeTx func(ctx boltz.MutateCon
 		txErr = boltz.NewMigratorManager(w.Z.Db).Migrate(fmt.Sprintf("verif-%d", w.MigSeq), 1, func(step *boltz.MigrationStep) int {
 			if err := run(step.Ctx); err != nil {
 				step.SetError(err)
+				if len(tx.Ops)%2 == 1 {
+					// the other convention: a step that could not do its work stays at the version it started from
+					return step.CurrentVersion
+				}
 			}
 			return 1
 		})
